@@ -218,6 +218,12 @@ pub struct Inner {
 	pub blocked_seen: bool,
 	pub machinery_error: Option<String>,
 	pub decider: Option<Decider>,
+	/// leaves held by a guard that was leaked with mem::forget (never released)
+	pub leaked: Vec<u32>,
+	/// poison reference model: per flag id 0 = must be false, 1 = must be true, 2 = unconstrained, 3 = panic in flight (either)
+	pub pmodel: std::collections::BTreeMap<u32, u8>,
+	/// which call's panic made the flag must-be-true (for keying a missed poisoning by its culprit)
+	pub pculprit: std::collections::BTreeMap<u32, String>,
 }
 
 pub struct Exec {
@@ -513,6 +519,9 @@ impl Exec {
 				blocked_seen: false,
 				machinery_error: None,
 				decider: None,
+				leaked: vec![],
+				pmodel: Default::default(),
+				pculprit: Default::default(),
 			}),
 			cv_thr: (0..MAXT).map(|_| Condvar::new()).collect(),
 		})
@@ -1119,4 +1128,102 @@ pub fn quiet_panics() {
 			eprintln!("[harness panic] {}", info);
 		}
 	}));
+}
+
+// ---------------------------------------------------------------------------------
+// Reference-model helpers shared between threads of an execution
+// ---------------------------------------------------------------------------------
+
+pub fn leak_leaves(leaves: &[u32]) {
+	if let Some((exec, _)) = ctx() {
+		let mut g = exec.lock();
+		for l in leaves {
+			if !g.leaked.contains(l) {
+				g.leaked.push(*l);
+			}
+		}
+		g.leaked.sort();
+	}
+}
+pub fn leaked_any(leaves: &[u32]) -> bool {
+	ctx().map(|(e, _)| {
+		let g = e.lock();
+		leaves.iter().any(|l| g.leaked.contains(l))
+	}).unwrap_or(false)
+}
+pub fn all_free(leaves: &[u32]) -> bool {
+	ctx().map(|(e, _)| {
+		let g = e.lock();
+		leaves.iter().all(|l| g.locks[*l as usize].is_free())
+	}).unwrap_or(true)
+}
+/// Would an acquisition of these leaves in this mode succeed right now (quiescent view)?
+pub fn acquirable(leaves: &[u32], write: bool) -> bool {
+	ctx().map(|(e, _)| {
+		let g = e.lock();
+		leaves.iter().all(|l| {
+			let st = &g.locks[*l as usize];
+			if write || !g.lock_is_rw[*l as usize] { st.is_free() } else { st.excl.is_none() }
+		})
+	}).unwrap_or(true)
+}
+
+pub const PM_FALSE: u8 = 0;
+pub const PM_TRUE: u8 = 1;
+pub const PM_ANY: u8 = 2;
+pub const PM_INFLIGHT: u8 = 3;
+pub const PM_INFLIGHT_SHARED: u8 = 4;
+
+/// A panic starts unwinding while the caller holds these flags' locks. `flags` = (flag, culprit key);
+/// `excl` says whether the hold is exclusive.
+pub fn pm_panic_begin(flags: &[(u32, String)], excl: bool) {
+	if let Some((exec, _)) = ctx() {
+		let mut g = exec.lock();
+		for (f, culprit) in flags {
+			let cur = g.pmodel.get(f).copied().unwrap_or(PM_FALSE);
+			if excl {
+				g.pmodel.insert(*f, PM_INFLIGHT);
+				g.pculprit.insert(*f, culprit.clone());
+			} else if cur == PM_FALSE {
+				g.pmodel.insert(*f, PM_INFLIGHT_SHARED);
+			}
+		}
+	}
+}
+pub fn pm_panic_end(flags: &[(u32, String)]) {
+	if let Some((exec, _)) = ctx() {
+		let mut g = exec.lock();
+		for (f, _) in flags {
+			match g.pmodel.get(f).copied() {
+				Some(PM_INFLIGHT) => {
+					g.pmodel.insert(*f, PM_TRUE);
+				}
+				Some(PM_INFLIGHT_SHARED) => {
+					g.pmodel.insert(*f, PM_ANY);
+				}
+				_ => {}
+			}
+		}
+	}
+}
+pub fn pm_clear(f: u32) {
+	if let Some((exec, _)) = ctx() {
+		let mut g = exec.lock();
+		let cur = g.pmodel.get(&f).copied().unwrap_or(PM_FALSE);
+		// clearing while a panic is in flight on another thread is racy by design: unconstrained afterwards
+		g.pmodel.insert(f, if cur == PM_INFLIGHT || cur == PM_INFLIGHT_SHARED { PM_ANY } else { PM_FALSE });
+	}
+}
+pub fn pm_culprit(f: u32) -> String {
+	ctx().and_then(|(e, _)| e.lock().pculprit.get(&f).cloned()).unwrap_or_default()
+}
+pub fn pm_expect(f: u32) -> Option<bool> {
+	ctx().and_then(|(e, _)| {
+		let g = e.lock();
+		match g.pmodel.get(&f).copied().unwrap_or(PM_FALSE) {
+			PM_FALSE => Some(false),
+			PM_TRUE => Some(true),
+			_ => None,
+		}
+	})
 }
